@@ -125,6 +125,9 @@ func (s SourceDescription) Marshal() ([]byte, error) {
 
 // Unmarshal decodes the SourceDescription from binary
 func (s *SourceDescription) Unmarshal(rawPacket []byte) error {
+	// Clear any existing entries
+	s.Chunks = nil
+
 	/*
 	 *         0                   1                   2                   3
 	 *         0 1 2 3 4 5 6 7 8 9 0 1 2 3 4 5 6 7 8 9 0 1 2 3 4 5 6 7 8 9 0 1
@@ -227,6 +230,9 @@ func (s SourceDescriptionChunk) Marshal() ([]byte, error) {
 
 // Unmarshal decodes the SourceDescriptionChunk from binary
 func (s *SourceDescriptionChunk) Unmarshal(rawPacket []byte) error {
+	// Clear any existing entries
+	s.Items = nil
+
 	/*
 	 *  +=+=+=+=+=+=+=+=+=+=+=+=+=+=+=+=+=+=+=+=+=+=+=+=+=+=+=+=+=+=+=+=+
 	 *  |                          SSRC/CSRC_1                          |
